@@ -290,6 +290,14 @@ func (o *orc) step(t []string) expct {
 		if !ok {
 			return o.leave()
 		}
+		if strings.HasSuffix(p, "/") { // an implicit folder named with its trailing separator; explicit ones are not in the domain
+			q := strings.TrimSuffix(p, "/")
+			if !segsOK(q) || o.isFile(q) || !o.isFolder(q) || !o.implicit(q) {
+				return o.leave()
+			}
+			o.implicitFolderOp = true
+			return expct{kind: expDir, val: corr.HexS(baseOf(q)), why: "a name with objects under it is a folder"}
+		}
 		switch {
 		case o.isFile(p):
 			if o.dirtyOn(p) {
@@ -306,6 +314,7 @@ func (o *orc) step(t []string) expct {
 		}
 	case "mkdir", "mkdirall":
 		p, ok := fsName(1)
+		p = strings.TrimSuffix(p, "/") // a folder may be named with its trailing separator ("logs/", "logs\\")
 		if !ok || !segsOK(p) || o.isFile(p) || !o.ancestorsOK(p) {
 			return o.leave()
 		}
